@@ -19,7 +19,7 @@ CHANS = ['chan1', 'x', 'y.z', 'ü', 'a b', "q'", 'c-d', ' lead', 'trail ', '\u20
 def gen_users(rng, n=None):
     users = {}
     for i in rng.sample(IDENTS, n if n is not None else rng.randint(0, 5)):
-        c = dict(secret=rng.choice(['s', 'sécret', 'pa ss', "q'uote", '12345']), owner=rng.choice(['o', 'own er', 'ö']),
+        c = dict(secret=rng.choice(['s', 'sécret', 'pa ss', "q'uote", '12345', 's', '']), owner=rng.choice(['o', 'own er', 'ö']),
                  pubchans=rng.sample(CHANS, rng.randint(0, 3)), subchans=rng.sample(CHANS, rng.randint(0, 3)))
         r = rng.random()
         if r < 0.2:
